@@ -67,4 +67,29 @@ theorem C03_source_roundtrip (recs : List Bytes) (hmax : Gen.maxVbsRecordLength 
   rw [hfile]
   exact C03_source_read recs hmax h
 
+/-- `for r in recs: self.write(r)` as translated is the iteration of the translated `write` -/
+theorem write_many_eq (recs : List Bytes) : ∀ (fin : Bool) (data : Bytes) (pos : Int),
+    Src.VbsWriter_write_many fin data pos recs = srcWriteAll (fin, (data, pos)) recs := by
+  unfold Src.VbsWriter_write_many
+  induction recs with
+  | nil => intros; rfl
+  | cons r rs ih =>
+    intro fin data pos
+    rw [Rt.forO, srcWriteAll]
+    simp only []
+    cases h : Src.VbsWriter_write fin data pos r with
+    | ok st => simp only [bind_ok_eq]; exact ih st.1 st.2.1 st.2.2
+    | dataError => rfl
+    | escape k => rfl
+    | diverge => rfl
+
+/-- C03 through the convenience loop: `write_many`, `close`, then reading back -/
+theorem C03_source_write_many_roundtrip (recs : List Bytes) (hmax : Gen.maxVbsRecordLength < 4294967296)
+    (h : ∀ r ∈ recs, 0 < r.length ∧ r.length ≤ Gen.maxVbsRecordLength) :
+    ∃ st1 st2, Src.VbsWriter_write_many false [] (0 : Int) recs = .ok st1 ∧
+      Src.VbsWriter_close st1.1 st1.2.1 st1.2.2 = .ok st2 ∧
+      srcReadAll (st2.2.1.length + 1) ((1 : Int), ([], st2.2.1)) = (recs, .eof) := by
+  rw [write_many_eq]
+  exact C03_source_roundtrip recs hmax h
+
 end Cardutil.SrcTie
